@@ -699,6 +699,9 @@ def exec_text_file(desc, ctx):
     want = w_scene(s0)
     ctx.check(len(want['events']) + len(want['actors']) > 0, 'sample_nonempty', 'sample parsed to an empty scene')
     text_cycle(ctx, s0, want, desc['file'])
+    if desc['file'] == 'test_save_text.vcd':
+        # this file is export_text() output (the repository's own snapshot): writing its parse gives it back
+        ctx.check(export_text(s0) == src, 'text_fixed_point', 'test_save_text.vcd: export_text(parse_text(file)) != file')
     # the walked sample, rebuilt from plain values through the constructors, writes the same text
     text0 = export_text(s0)
     for needle in ('loopcount "8"', 'distancetotarget 59.00', 'cc_noattenuate', '"a_tag" 0.138743', 'pitch "61"',
@@ -927,6 +930,7 @@ def strategy_image(tier):
     return st.fixed_dictionaries({
         'version': st.sampled_from([2, 3]),
         'as_dict': st.booleans(),
+        'mode': st.sampled_from(['reexport', 'mixed', 'two_pools']),
         'entries': st.lists(entry, max_size=4, unique_by=lambda e: crc_of(e['filename'])),
     })
 
@@ -1067,23 +1071,48 @@ def exec_image(desc, ctx):
     raw2 = save_image(list(parsed.values()), version)
     ctx.check(raw2 == raw, 'image_fixed_point_copy',
               f'save(parse(file)) without touching the scenes differs from the file ({len(raw)} vs {len(raw2)} bytes)')
-    # ---- forcing every scene to be parsed and re-exported: equal scenes, and a fixed point from then on
-    for ent in parsed.values():
-        d = by_crc[ent.checksum]
-        diff = first_diff(to_binary_form(x_scene(d['scene'])), w_scene(ent.data))
-        ctx.check(diff is None, 'image_entry_data', f'{d["filename"]}: Entry.data differs: {diff}', diff=str(diff))
-    raw3 = save_image(list(parsed.values()), version)
-    if input_sorted:
-        ctx.check(raw3 == raw, 'image_fixed_point_reexport',
-                  'save(parse(file)) after parsing every scene differs from the file (input was in CRC order)')
-    again = choreo.parse_scenes_image(io.BytesIO(raw3))
-    for ent in again.values():
-        ent.data
-    raw4 = save_image(list(again.values()), version)
-    ctx.check(raw4 == raw3, 'image_fixed_point_reexport', 'third generation differs from the second')
-    img3 = read_image(raw3)
+    mode = desc['mode']
+    ctx.label('mode:' + mode)
     key = lambda im: [(e['crc'], e['duration'], e['last_speak'], e['sounds']) for e in im['entries']]
-    ctx.check(key(img3) == key(img), 'image_regen', 'regenerated file stores different directory/summary fields')
+    if mode == 'reexport':
+        # ---- forcing every scene to be parsed and re-exported: equal scenes, and a fixed point from then on
+        for ent in parsed.values():
+            d = by_crc[ent.checksum]
+            diff = first_diff(to_binary_form(x_scene(d['scene'])), w_scene(ent.data))
+            ctx.check(diff is None, 'image_entry_data', f'{d["filename"]}: Entry.data differs: {diff}', diff=str(diff))
+        raw3 = save_image(list(parsed.values()), version)
+        if input_sorted:
+            ctx.check(raw3 == raw, 'image_fixed_point_reexport',
+                      'save(parse(file)) after parsing every scene differs from the file (input was in CRC order)')
+        again = choreo.parse_scenes_image(io.BytesIO(raw3))
+        for ent in again.values():
+            ent.data
+        raw4 = save_image(list(again.values()), version)
+        ctx.check(raw4 == raw3, 'image_fixed_point_reexport', 'third generation differs from the second')
+        ctx.check(key(read_image(raw3)) == key(img), 'image_regen', 'regenerated file stores different directory/summary fields')
+        return
+    # ---- merging: entries of an existing image (unparsed blocks + its pool) together with
+    #      'mixed': freshly built scenes / 'two_pools': the entries of a second image (forces re-export of all)
+    half_a = [e for i, e in enumerate(built) if i % 2 == 0]
+    half_b = [e for i, e in enumerate(built) if i % 2 == 1]
+    part_a = list(choreo.parse_scenes_image(io.BytesIO(save_image(half_a, version))).values())
+    if mode == 'mixed':
+        part_b = half_b
+    else:
+        part_b = list(choreo.parse_scenes_image(io.BytesIO(save_image(half_b, version))).values())
+    merged_raw = save_image(part_b + part_a, version)
+    merged = read_image(merged_raw)
+    ctx.check([e['crc'] for e in merged['entries']] == sorted(by_crc), 'image_sorted',
+              f'{mode}: merged directory {[e["crc"] for e in merged["entries"]]} is not sorted / complete {sorted(by_crc)}')
+    ctx.check(key(merged) == key(img), 'image_merge', f'{mode}: merged image stores other summaries: {key(merged)} vs {key(img)}')
+    for ent in merged['entries']:
+        d = by_crc.get(ent['crc'])
+        if d is None:
+            continue
+        sc, left = parse_binary(ent['data'], merged['strings'])
+        diff = first_diff(to_binary_form(x_scene(d['scene'])), w_scene(sc))
+        ctx.check(diff is None and left == 0, 'image_merge',
+                  f'{mode}: scene {d["filename"]} differs after merging: {diff} (unread {left})', diff=str(diff))
 
 
 def fixed_image(tier):
@@ -1147,9 +1176,9 @@ SUBS = [
         must_hit=COMMON_HIT + ('flex', 'flex:dir', 'file:sample.vcd', 'file:test_save_binary.bvcd')),
     Sub('choreo_cross', exec_cross, strategy=strategy_cross, quick=800, thorough=12000, floor=100, quick_shards=16,
         must_hit=COMMON_HIT),
-    Sub('choreo_image', exec_image_any, strategy=strategy_image, fixed=fixed_image, quick=320, thorough=5000, floor=50,
+    Sub('choreo_image', exec_image_any, strategy=strategy_image, fixed=fixed_image, quick=240, thorough=5000, floor=40,
         quick_shards=16,
-        must_hit=('version:2', 'version:3', 'entries:2+', 'arg:dict', 'arg:iter', 'input_unsorted', 'ev:speak', 'lzma')),
+        must_hit=('version:2', 'version:3', 'mode:reexport', 'mode:mixed', 'mode:two_pools', 'entries:2+', 'arg:dict', 'arg:iter', 'input_unsorted', 'ev:speak', 'lzma')),
 ]
 
 
